@@ -11,7 +11,7 @@ q = sys.argv[1]
 orig = V.discharge
 def d2(o, ver=None):
     orig(o, ver)
-    print("   %-60s %-11s %6.2fs %s" % (o.name[:60], o.status, o.seconds, list(o.key[2])[-8:]), flush=True)
+    print("   %-60s %-11s %6.2fs %s %s" % (o.name[:60], o.status, o.seconds, list(o.key[2])[-8:], o.site), flush=True)
 V.discharge = d2
 os.environ["PYVC_DISCHARGE_JOBS"] = "1"
 t0 = time.time()
